@@ -657,65 +657,52 @@ pub(crate) mod u6 {
 
     // ------------------------------------------------------------------ C07
     /// Dropping a thread releases every object of heap_list exactly once with its own layout
-    /// (CBMC: double free / size-mismatch / leak checks) and heap_size returns to 0.
+    /// (CBMC: double-free / layout-size / leak checks) and heap_size returns to 0.  One object of
+    /// each kind, the array grown by the real ArrayPush (capacity accounting), colours arbitrary.
     #[cfg(kani)]
     #[kani::proof]
     #[kani::unwind(6)]
     fn drop_thread_frees_all() {
-        let w = any_world(2, false, ANY_STATE, 255);
-        let World { t, .. } = w;
-        // an array that has grown (heap_size accounting of ArrayPush)
-        let mut t = std::mem::ManuallyDrop::new(t);
-        t.value_stack.clear();
-        let arr1 = ptr_val(t.heap_list[1]);
-        t.value_stack.push(arr1);
-        t.value_stack.push(Value::from(9 as AbraInt));
+        let mut t = mk_thread(vec![]);
+        let z = Value::from(0 as AbraInt);
+        let e = EnumObject::new(1, z, &mut t);
+        let a = ArrayObject::new(vec![Value::from(e)], &mut t);
+        let s = StringObject::new(String::from("a"), &mut t);
+        let st = StructObject::new(vec![Value::from(a), Value::from(s)], &mut t);
+        t.value_stack.push(Value::from(a));
+        t.value_stack.push(Value::from(st));
         t.stack_base = 0;
-        t.arm_ArrayPush(0, TOPREG); // rvalue = Top (9), array = local 0
+        t.arm_ArrayPush(0, TOPREG); // array = local 0, rvalue = Top: the array grows
+        unsafe {
+            (*(e as *mut ObjectHeader)).visited = kani::any();
+            (*(a as *mut ObjectHeader)).visited = kani::any();
+            (*(s as *mut ObjectHeader)).visited = kani::any();
+            (*(st as *mut ObjectHeader)).visited = kani::any();
+        }
         assert!(size_ok(&t), "U6: heap_size == sum of nbytes before drop");
         kani::cover!(t.heap_list.len() == 4, "reachable");
+        let mut t = std::mem::ManuallyDrop::new(t);
         unsafe { std::mem::ManuallyDrop::drop(&mut t) };
         assert!(t.heap_size == 0, "U6: heap_size returns to 0 after drop");
     }
-    /// The owner of static_strings must release what StringObject::new_static leaked: build the
-    /// runtime exactly as an embedder does, drop it, nothing may stay allocated.
+    /// The owner of static_strings must release what StringObject::new_static leaked: shared
+    /// state built with the two statements Runtime::new uses, one thread, everything dropped;
+    /// nothing may stay allocated (CBMC --memory-leak-check).
     #[cfg(kani)]
     #[kani::proof]
     #[kani::unwind(4)]
-    fn drop_runtime_frees_static_strings() {
-        let program = CompiledProgram {
-            instructions: vec![],
-            int_constants: vec![],
-            float_constants: vec![],
-            static_strings: vec![String::from("s")],
-            filename_arena: vec![],
-            function_name_arena: vec![],
-            filename_table: vec![],
-            lineno_table: vec![],
-            function_name_table: vec![],
-        };
-        let rt = Runtime::new(program);
-        kani::cover!(rt.run_queue.len() == 1, "reachable");
-        drop(rt);
+    fn drop_shared_frees_static_strings() {
+        let t = mk_thread(vec![String::from("s")]);
+        kani::cover!(t.shared.static_strings.len() == 1, "reachable");
+        drop(t);
     }
-    /// control for the leak check: the same runtime without string constants leaks nothing
+    /// control for the leak check: the same without string constants leaks nothing
     #[cfg(kani)]
     #[kani::proof]
     #[kani::unwind(4)]
-    fn drop_runtime_no_strings_control() {
-        let program = CompiledProgram {
-            instructions: vec![],
-            int_constants: vec![],
-            float_constants: vec![],
-            static_strings: vec![],
-            filename_arena: vec![],
-            function_name_arena: vec![],
-            filename_table: vec![],
-            lineno_table: vec![],
-            function_name_table: vec![],
-        };
-        let rt = Runtime::new(program);
-        kani::cover!(rt.run_queue.len() == 1, "reachable");
-        drop(rt);
+    fn drop_shared_no_strings_control() {
+        let t = mk_thread(vec![]);
+        kani::cover!(t.shared.static_strings.len() == 0, "reachable");
+        drop(t);
     }
 }
